@@ -24,7 +24,7 @@ from mc import spaces as S
 from mc.registry import operators as OR
 
 PROPERTY = 'C06'
-BUDGET = {'quick': 900, 'thorough': 5400}
+BUDGET = {'quick': 1500, 'thorough': 5400}
 H = [2.0 ** -6, 2.0 ** -9, 2.0 ** -12]
 MAXDIM = 40
 
